@@ -26,6 +26,12 @@ pub fn eval(c: &FragCase) -> Outcome {
     for (k, e) in t.emitted.iter().enumerate() {
         let s = match &e.parsed {
             Ok(s) => s,
+            Err(err) if ["trun", "tfdt", "tfhd"].iter().any(|b| err.contains(b)) => {
+                // the boxes that carry the timeline cannot be decoded: no decode-time deltas, offsets or flags for this segment
+                let which = ["trun", "tfdt", "tfhd"].iter().find(|b| err.contains(**b)).unwrap();
+                o.fail("readable", format!("readable.{}", which), format!("segment {}: {} (the segment carries no usable timeline)", k, err));
+                return o;
+            }
             Err(_) => {
                 o.class("unparseable_not_judged(C02)");
                 return o;
